@@ -83,6 +83,8 @@ pub struct RunCfg {
     /// twin runs with a keep-alive in which time passes only in script steps: both executions
     /// have the same timing and are compared PINGREQs included
     pub twin_same_timing: bool,
+    /// twin scripts: the application's polls give up after this long (0 = never)
+    pub twin_poll_budget_us: u64,
     /// writes/flushes never stall or fail; used by timing profiles
     pub zero_time_io: bool,
     // broker policy (per mille)
@@ -551,6 +553,8 @@ pub struct World {
     pub qos0_cancelled: bool,
     pub burn_done: bool,
     pub twin_mode: bool,
+    /// twin scripts: the execution left the comparable part of the script
+    pub twin_incomparable: bool,
     /// position of the program tape at which the (twin) script generation starts
     pub script_start_pos: usize,
     pub last_cancel_idle: bool,
@@ -642,6 +646,7 @@ impl World {
             qos0_cancelled: false,
             burn_done: false,
             twin_mode: false,
+            twin_incomparable: false,
             script_start_pos: 0,
             last_cancel_idle: false,
             chunk_mask: None,
@@ -934,6 +939,7 @@ impl World {
             let c = &self.conns[conn];
             if c.parsed != c.wire.len() && !(rem.starts_with(buf) || buf.starts_with(&rem)) {
                 let inside = crate::codec::type_name_of(c.wire[c.parsed] >> 4);
+                let first = c.wire[c.parsed];
                 let newp = crate::codec::type_name_of(buf[0] >> 4);
                 let sig = if c.disconnect_cancelled && inside == "DISCONNECT" {
                     "packet-inside-packet/interrupted=DISCONNECT/after-cancelled-disconnect".to_string()
@@ -953,6 +959,17 @@ impl World {
                         crate::util::hex(&rem)
                     ),
                 );
+                // C02/C03: the interrupted packet is a step of a QoS 1/2 exchange that does not
+                // reach the broker as that step ("same identifier", "byte-identical content")
+                let step = match (first >> 4, (first >> 1) & 3) {
+                    (3, 1) => Some(("C02", "publish-not-intact-on-the-wire")),
+                    (3, 2) => Some(("C03", "publish-not-intact-on-the-wire")),
+                    (6, _) => Some(("C03", "pubrel-not-intact-on-the-wire")),
+                    _ => None,
+                };
+                if let Some((prop, rule)) = step {
+                    self.violate(prop, format!("{rule}/interrupted-by={newp}"), format!("the bytes of a {newp} packet are written into the middle of the {inside} packet under way"));
+                }
                 if inside != "DISCONNECT" && inside != "CONNECT" {
                     // C09: the broker decodes the interrupted packet with foreign bytes in its
                     // middle, i.e. not what the application asked to send
